@@ -465,7 +465,8 @@ class RawWS:
         self.sent_bytes += len(data)
         return True
 
-    def send_frame(self, opcode, payload=b"", fin=True, rsv=0, mask=None, force_mask=None):
+    def send_frame(self, opcode, payload=b"", fin=True, rsv=0, mask=None, force_mask=None,
+                   declared_len=None):
         """Encodes and sends one frame; clients mask (``mask`` 4 bytes or a
         default), servers do not - unless ``force_mask`` says otherwise."""
         masked = (self.role == "client") if force_mask is None else force_mask
@@ -474,8 +475,10 @@ class RawWS:
                 mask = mask_for(self.sent_frames + 5, self.sent_frames)
         else:
             mask = None
-        data = W.encode_frame(opcode, payload, fin=fin, rsv=rsv, mask=mask)
-        hlen = W.header_len(len(payload), mask is not None)
+        data = W.encode_frame(opcode, payload, fin=fin, rsv=rsv, mask=mask,
+                              declared_len=declared_len)
+        hlen = W.header_len(len(payload), mask is not None) if declared_len is None \
+            else 10 + (4 if mask is not None else 0)
         self.frame_offsets.append((self.sent_bytes, hlen, len(data)))
         self.sent_frames += 1
         return self.send_bytes(data, hlen)
